@@ -127,6 +127,17 @@ def slice_tag_source():
         ]
     except (OSError, SliceError) as ex:
         return None, {}, ["Unknown: %s" % ex]
+    # private free functions of gc_ptr.rs that the sliced `impl GcHeader` calls (e.g. colour <-> tag tables moved out of
+    # `color` / `set_color` into `const fn` helpers): cut them out too, so the twin still compiles the crate's own code
+    helpers = {}
+    for m in re.finditer(r"(?m)^(?:pub\(crate\)\s+)?(?:const\s+)?fn\s+(\w+)\b", gp):
+        name = m.group(1)
+        if re.search(r"(?<![\w.:])%s\s*\(" % re.escape(name), parts[2]):
+            try:
+                helpers[name] = _item(gp, r"^(?:pub\(crate\)\s+)?(?:const\s+)?fn\s+%s\b" % re.escape(name), "fn %s" % name)
+            except SliceError as ex:
+                return None, {}, ["Unknown: %s" % ex]
+    parts.extend(helpers[n] for n in sorted(helpers))
     text = "// GENERATED from %s/src/gc_ptr.rs and src/types.rs — do not edit\n\n" % vlib.REPO + "\n\n".join(parts) + "\n"
     consts = {}
     vt = parts[3]
@@ -157,13 +168,16 @@ def slice_tag_source():
             consts[key] = g[0]
         else:
             problems.append("Unknown: masks of %s/%s not recognised or different: get=%s set=%s" % (getter, setter, g, s))
-    # colour codes
-    codes_get = dict((_num(a), b) for a, b in re.findall(r"(0x[0-9a-fA-F]+|\d+)\s*=>\s*GcColor::(\w+)", fn_body("color")))
-    codes_set = dict((b, _num(a)) for b, a in re.findall(r"GcColor::(\w+)\s*=>\s*(0x[0-9a-fA-F]+|\d+)", fn_body("set_color")))
+    # colour codes (the tables may live in a private helper called by color / set_color)
+    def with_helpers(body):
+        return body + "".join(h for n, h in sorted(helpers.items()) if re.search(r"(?<![\w.:])%s\s*\(" % re.escape(n), body))
+    color_src, set_color_src = with_helpers(fn_body("color")), with_helpers(fn_body("set_color"))
+    codes_get = dict((_num(a), b) for a, b in re.findall(r"(0x[0-9a-fA-F]+|\d+)\s*=>\s*GcColor::(\w+)", color_src))
+    codes_set = dict((b, _num(a)) for b, a in re.findall(r"GcColor::(\w+)\s*=>\s*(0x[0-9a-fA-F]+|\d+)", set_color_src))
     expect = {"White": 0, "WhiteWeak": 1, "Gray": 2, "Black": 3}
     if codes_set != expect:
         problems.append("Unknown: colour encoding in set_color is %s, the model has %s" % (codes_set, expect))
-    if any(expect.get(n) != c for c, n in codes_get.items()) or not re.search(r"_\s*=>\s*GcColor::Black", fn_body("color")):
+    if any(expect.get(n) != c for c, n in codes_get.items()) or not re.search(r"_\s*=>\s*GcColor::Black", color_src):
         problems.append("Unknown: colour decoding in color() is %s (+ wildcard), the model has %s" % (codes_get, expect))
     consts["color_codes"] = codes_set
     return text, consts, problems
